@@ -700,7 +700,10 @@ impl Datamodel for ECMAScriptDatamodel {
                         let p = ob.properties();
                         let mut idx: i64 = 0;
 
-                        if self.assign_internal(item_name, "null", true) {
+                        // Declare 'item' and 'index' if necessary.
+                        if self.assign_internal(item_name, "null", true)
+                            && (index.is_empty() || self.assign_internal(index, "0", true))
+                        {
                             for item_prop in p.index_property_values() {
                                 // Skip the last "length" element
                                 if item_prop.enumerable().is_some() && item_prop.enumerable().unwrap() {
@@ -710,8 +713,11 @@ impl Datamodel for ECMAScriptDatamodel {
                                             debug!("ForEach: #{} {}={:?}", idx, item_name, item);
                                             let str = js_to_string(item, &mut self.context);
                                             if self.assign(&str_to_source(item_name), &str_to_source(str.as_str())) {
-                                                if !index.is_empty() {
-                                                    self.set_js_property(index, idx);
+                                                // A read-only 'index' (a system variable) raises error.execution.
+                                                if !index.is_empty()
+                                                    && !self.assign_internal(index, idx.to_string().as_str(), false)
+                                                {
+                                                    return false;
                                                 }
                                                 if !execute_body(self) {
                                                     return false;
